@@ -9,6 +9,7 @@ def zi(v):
 class Store:
     def __init__(self, shape, get):
         self.shape = tuple(shape); self.get = get   # get(tuple of z3 ints)->term
+        self.readonly = False; self.writes = 0
 
 class ND:
     """view onto a Store. axes: list per *base* axis: ('fix', z) | ('sl', start_z, step(+-1), len, viewaxis)"""
@@ -68,6 +69,9 @@ class ND:
         if v.ndim == 0: return v.get()
         return v
     def __setitem__(self, key, val):
+        if self.store.readonly:
+            raise ValueError('assignment destination is read-only')
+        self.store.writes += 1
         v = self._view(key)
         vshape = v.shape
         if isinstance(val, ND):
